@@ -16,7 +16,7 @@ func init() {
 		Level: "other",
 		Explanation: "Decided (structural necessary conditions of 'cells land at their addressed position'; narrow): (R17.1) row/column typing of the reference plumbing: ParseCellRef returns (column from the letters, row from the digits minus one) in that order, every consumer binds result 0 to a column position and result 1 to a row position (grid placement Rows[r.R-1][col], Sheet.Cell(row, col), MergedRegion fields), ParseRangeRef forwards the four coordinates unpermuted, CellRef adds the one back; (R17.2) the grid dimensions are maxima over every cell of every row (the dimension pass visits cells with a full forward index); (R17.3) the tab-separated rendering writes the delimiter for every column after the first, whatever the cell's merge state. " +
 			"Not decided: the base-26 arithmetic itself, shared strings and rich text, merge expansion, rows without an r attribute.",
-		Rules: []func(*eng.Ctx){ruleGridRectangular, deleteInRangeRule("R17.DR", "xlsx"), ruleColumnLettersBijective, ruleDeclaredAddressKept, ruleEveryValueUnderMergeTest, ruleDelimitedFieldSanitised, ruleGridSizedFromEveryCell, ruleRenderLeavesReader, loopVarRule("R17.LV", "xlsx"), ruleDimensionTyping, ruleGridDimensions, ruleDelimiterPerColumn, ruleFreshDecodeTarget, ruleBoundsOffsets, roleRule("R17.R", "xlsx"), ruleStringContentModel, ruleDeclaredChildReadXlsx, ruleJoinBufferFresh, ruleGridFromCells, ruleMarkdownBlanksCovered, ruleSheetTextUntrimmed},
+		Rules: []func(*eng.Ctx){ruleWorkbooksEvaluated, ruleGridRectangular, deleteInRangeRule("R17.DR", "xlsx"), ruleColumnLettersBijective, ruleDeclaredAddressKept, ruleEveryValueUnderMergeTest, ruleDelimitedFieldSanitised, ruleGridSizedFromEveryCell, ruleRenderLeavesReader, loopVarRule("R17.LV", "xlsx"), ruleDimensionTyping, ruleGridDimensions, ruleDelimiterPerColumn, ruleFreshDecodeTarget, ruleBoundsOffsets, roleRule("R17.R", "xlsx"), ruleStringContentModel, ruleDeclaredChildReadXlsx, ruleJoinBufferFresh, ruleGridFromCells, ruleMarkdownBlanksCovered, ruleSheetTextUntrimmed},
 	})
 }
 
